@@ -438,6 +438,10 @@ def wfTop (nSyms nSets : Nat) : Expr → Bool
   | .choice subs => subs.all (wfRule nSyms nSets)
   | e => wfRule nSyms nSets e
 
+/-- every set resolves to at least one terminal and only to terminals (Bool form of `SetsOk`) -/
+def setsOkB (cx : Ctx) : Bool :=
+  cx.setTerms.all fun ts => !ts.isEmpty && ts.all (· < cx.nT)
+
 def wfGrammar (g : ExtGrammar) : Bool :=
   g.user.length == g.cx.nU && g.user.all (wfTop g.cx.base g.cx.setTerms.length)
 
